@@ -320,3 +320,58 @@ func verifC06Sequence(valLen int) {
 
 func VerifHarness_C06_Sequence_1() { verifC06Sequence(1) }
 func VerifHarness_C06_Sequence_2() { verifC06Sequence(2) }
+
+// C06-O3c: logfmt over a line assembled from a symbolic sequence of pairs
+// (keys may repeat) with an optional malformed tail, and a symbolic set of
+// requested keys: the last occurrence of a requested key wins, keys that were
+// not requested stay hidden, and a malformed line is flagged wherever the
+// malformed part is.
+func verifC06LogfmtSeq(nPairs int) {
+	keys := []string{"k1", "k2", "k3"}
+	var line string
+	last := map[string]string{}
+	for i := 0; i < nPairs; i++ {
+		k := keys[vsymChoice("key", len(keys))]
+		v := verifLower("v", 1)
+		if i > 0 {
+			line += " "
+		}
+		line += k + "=" + v
+		last[k] = v
+	}
+	bad := vsymBool("malformed")
+	if bad {
+		line += ` z="u`
+	}
+	var req []logql.Label
+	for _, k := range keys {
+		if vsymBool("req_" + k) {
+			req = append(req, logql.Label(k))
+		}
+	}
+	proc, err := buildLogfmtExtractor(&logql.LogfmtExpressionParser{Labels: req})
+	vsymAssert(err == nil, "logfmt stage builds")
+	set := newLabelSet()
+	out, keep := proc.Process(1, line, set)
+	vsymAssert(keep && out == line, "logfmt never drops or changes the line")
+	vsymAssert(verifNoErr(set) == !bad, "a line is flagged with __error__ exactly when it is malformed")
+	for _, k := range keys {
+		requested := len(req) == 0
+		for _, r := range req {
+			if string(r) == k {
+				requested = true
+			}
+		}
+		g, ok := verifGet(set, k)
+		want, present := last[k]
+		if requested && present {
+			vsymAssert(ok && g == want, "a requested key present in the line is exposed with its last value")
+		} else {
+			vsymAssert(!ok, "keys that are absent or were not requested are not exposed")
+		}
+	}
+	vsymReach("C06_logfmt_seq")
+}
+
+func VerifHarness_C06_LogfmtSeq_3() { verifC06LogfmtSeq(3) }
+func VerifHarness_C06_LogfmtSeq_4() { verifC06LogfmtSeq(4) }
